@@ -192,6 +192,47 @@ def check(ctx, rep):
     rep.rule('R10.e', 'register_types registers Self, Self::Output and the hand-listed types; generated Export impls register every operation', floor=6)
 
     check_checked_registry(ctx, rep)
+    r_ = check_wire_types(ctx, rep)
+    if r_ is None:
+        return
+    ops, probe = r_
+    check_codec(ctx, rep)
+    _core = ctx.crate('default', 'crux_core')
+    if _core is not None:
+        check_output_buffers(rep, 'R10.g', _core)
+    else:
+        rep.missing('R10.g', 'crux_core facts')
+    check_registration(ctx, rep, ops, probe)
+    controls(ctx, rep)
+    rep.assume('serde_derive 1.0.219 numbering (Serialize: declaration index; Deserialize: index among non-skipped variants), read in its source')
+    rep.assume('bincode 1.3.3 with_fixint_encoding writes fixed-width little-endian integers, which the generated foreign runtimes read')
+    rep.assume('serde-reflection traces String/Vec/Option/Box/serde_bytes as bincode encodes them')
+
+
+class RuleProxy:
+    """reports the wire-type rules R10.a-c of another property under one rule id of its own, restricted to some types"""
+
+    def __init__(self, rep, rid, keep):
+        self.rep, self.rid, self.keep = rep, rid, keep
+
+    def ok(self, rid, site, detail=''):
+        if self.keep(site):
+            self.rep.ok(self.rid, site, detail)
+
+    def bad(self, rid, key, detail, site=None):
+        if self.keep(key):
+            self.rep.bad(self.rid, key, detail, site=site)
+
+    def expect(self, rid, cond, key, ok_detail, bad_detail, site=None):
+        if self.keep(key):
+            self.rep.expect(self.rid, cond, key, ok_detail, bad_detail, site=site)
+
+    def missing(self, rid, what):
+        self.rep.missing(self.rid, what)
+
+
+def check_wire_types(ctx, rep):
+    """R10.a-c; returns (operations, probe crate) or None when the facts are incomplete"""
     crates = []
     for name in WIRE_CRATES:
         c = ctx.crate('default', name)
@@ -303,18 +344,7 @@ def check(ctx, rep):
                     'Deserialize by position among non-skipped variants' % (p, bad[0], bad[1]))
         else:
             rep.ok('R10.c', p, 'skipped variants (if any) are last')
-
-    check_codec(ctx, rep)
-    _core = ctx.crate('default', 'crux_core')
-    if _core is not None:
-        check_output_buffers(rep, 'R10.g', _core)
-    else:
-        rep.missing('R10.g', 'crux_core facts')
-    check_registration(ctx, rep, ops, probe)
-    controls(ctx, rep)
-    rep.assume('serde_derive 1.0.219 numbering (Serialize: declaration index; Deserialize: index among non-skipped variants), read in its source')
-    rep.assume('bincode 1.3.3 with_fixint_encoding writes fixed-width little-endian integers, which the generated foreign runtimes read')
-    rep.assume('serde-reflection traces String/Vec/Option/Box/serde_bytes as bincode encodes them')
+    return ops, probe
 
 
 def check_codec(ctx, rep, rid='R10.d'):
